@@ -47,6 +47,7 @@ Ops(f) ==
     [] f.form = "vaarg" -> {f.a}
     [] f.form = "generic" -> {f.c} \cup (IF "vla" \in SeqSet(f.assoc) THEN {"li"} ELSE {})
     [] f.form = "builtin" -> IF f.ap THEN {"ap"} ELSE {}
+    [] f.form = "cinit" -> (IF f.of.form = "bin" THEN {f.of.l, f.of.r} ELSE {f.of.c, f.of.a, f.of.b})
     [] f.form = "struct" -> IF \E i \in DOMAIN f.mem : f.mem[i].ty = "vla" THEN {"li"} ELSE {}
     [] f.form = "misc" -> IF f.kind \in {"vla_init", "vla2_init", "vla_ok", "static_init_addr_local"} THEN {"li"} ELSE {}
     [] f.form = "ctl" -> {f.c}
@@ -397,6 +398,9 @@ ExcludedCore(b, p, f) ==
   \/ p \notin FeasiblePos(f)
   \* void pointer <-> function pointer: constraint by the letter, universally accepted extension
   \/ \E x \in (IF Typed(b, p, f) /\ fm \in {"asg", "sinit", "call", "stmt"} THEN AssignPairs(b, p, f) ELSE {}) : VoidFnMix(x[1], x[2])
+  \* the arms of ?: are a void pointer and a function pointer (6.5.15p3 by the letter; same common extension)
+  \/ fm = "cond" /\ Typed(b, p, f) /\ ~IsNullConst(f.a) /\ ~IsNullConst(f.b)
+       /\ ((IsVoidPtr(VT(f.a)) /\ IsFnPtr(VT(f.b))) \/ (IsFnPtr(VT(f.a)) /\ IsVoidPtr(VT(f.b))))
   \* *(void *) / *(incomplete *): valid expression, but lvalue conversion of it is undefined
   \/ fm = "un" /\ f.op = "deref" /\ f.a \in {"gv", "gip"}
   \* pointer <-> floating casts (6.5.4p4) and function pointer -> object pointer casts: not in cproc's catalogue
@@ -725,7 +729,7 @@ BenignFrags == {
   FCInit(FBin("==", "kpi", "kpi")), FCInit(FBin("!=", "kpi", "kv")), FCInit(FBin("==", "kpc", "k0")), FCInit(FBin("==", "knil", "kpi")),
   FCInit(FCond("k1", "kpi", "kv")), FCInit(FCond("k1", "k0", "kpc")),
   FAsg("=", "gfp", "kv"), FAsg("=", "gp", "kpi"), FAsg("=", "gq", "kv"), FCall("gvar", <<"gi", "gi">>), FCall("gvar", <<"gi", "gi", "gd">>),
-  FCall("gvar", <<"gi", "gi", "gp">>), FUn("sizeof", "gcbf") = FUn("sizeof", "gcbf"),
+  FCall("gvar", <<"gi", "gi", "gp">>), FUn("neg", "gcbf"),
   FUse("gi"), FUse("ek"), FBin("+", "gp", "gi"), FBin("+", "gi", "gq"), FBin("-", "gp", "gcp"), FBin("-", "gq", "gi"), FBin("==", "gp", "k0"),
   FBin("!=", "gv", "gp"), FBin("==", "gfp", "gfp"), FBin("<", "gp", "gcp"), FBin(">=", "gv", "gv"), FBin("<=", "gip", "gip"), FBin("&", "gi", "k0"),
   FBin("%", "gi", "gi"), FBin("<<", "gi", "k0"), FBin("&&", "gp", "gd"), FBin("||", "gfp", "gi"), FBin("*", "gd", "gi"), FBin("/", "gi", "gd"),
@@ -1115,9 +1119,13 @@ TypeOK == /\ prog.base \in AllBases
           /\ claim \in RuleNames \cup UnsupNames \cup {"valid", "any"}
 
 (* sub-context of a fragment, used by the harness in the finding key *)
-SubOf(f) == CASE f.form \in {"bin", "un"} -> f.op
-              [] f.form = "asg" -> (IF f.op = "=" THEN "assign" ELSE f.op)
-              [] f.form = "call" -> "arg"
+(* the tags separate defects that share a rule and an operator but live in different code *)
+NullVsNonPtr(x, y) == (x = "kv" /\ ~IsPtr(VT(y))) \/ (y = "kv" /\ ~IsPtr(VT(x)))
+RECURSIVE SubOf(_)
+SubOf(f) == CASE f.form = "bin" -> (IF f.l \in EntNames /\ f.r \in EntNames /\ NullVsNonPtr(f.l, f.r) THEN "nullconst-vs-nonpointer" \o f.op ELSE f.op)
+              [] f.form = "un" -> (IF f.a = "gcbf" THEN "constbitfield-" \o f.op ELSE f.op)
+              [] f.form = "asg" -> (IF f.l = "gcbf" THEN "constbitfield-" ELSE "") \o (IF f.op = "=" THEN "assign" ELSE f.op)
+              [] f.form = "call" -> f.fn
               [] f.form \in {"sinit", "strinit"} -> "init"
               [] f.form = "init" -> f.tgt
               [] f.form = "stmt" -> f.kind
@@ -1126,7 +1134,7 @@ SubOf(f) == CASE f.form \in {"bin", "un"} -> f.op
               [] f.form \in {"synx", "lit", "misc", "builtin"} -> f.kind
               [] f.form = "dir" -> (IF f.va # "none" THEN f.va ELSE f.d)
               [] f.form = "drop" -> (IF f.with = "" THEN f.tok ELSE f.with)
-              [] f.form = "cinit" -> (IF f.of.form = "bin" THEN f.of.op ELSE "cond")
+              [] f.form = "cinit" -> SubOf(f.of)
               [] OTHER -> f.form
 
 (* One invariant evaluates the rules once per state and does three things:                 *)
